@@ -32,18 +32,28 @@ def scenarios(tier, seed):
 def run(tier, seed):
     rep = Report("C06", tier, seed)
     rep.add_mc("MC_OutFile", tlc.model_check("MC_OutFile", "MC_OutFile.cfg" if tier == "thorough" else "MC_OutFile_quick.cfg", must_take=["Step", "Finish"]))
-    rep.add_mc("MC_Ladim(dense)", tlc.model_check("MC_Ladim", "MC_Ladim_dense.cfg", must_take=["Call"], timeout=1800),
-               note="dense layout on the composed model: DenseAddressing (the column written is the particle's identifier) besides the identity / record invariants")
+    rep.add_mc("MC_Ladim(dense)", tlc.model_check("MC_Ladim", "MC_Ladim_dense.cfg", must_take=["Call", "Restart", "Continue"], timeout=1800),
+               note="dense layout on the composed model: DenseAddressing (the column written is the particle's identifier, in the uninterrupted and in every restarted run) besides the identity / record invariants")
+    rep.add_mc("MC_Ladim_densebypos(control)", tlc.expect_refuted("MC_Ladim", "MC_Ladim_densebypos.cfg", "DenseAddressing"),
+               note="control: the pinned addressing (list position = column) is refuted by a warm start - the restored list holds the living particles only (D32)")
     rep.add_mc("MC_Ladim_densecompact(control)", tlc.expect_refuted("MC_Ladim", "MC_Ladim_densecompact.cfg", "DenseAddressing"),
-               note="control: removing the dead after every step (a tidy-up that is harmless for the sparse layout) is refuted for the dense layout")
+               note="control: the pinned addressing is also refuted when the dead are removed after every step (a tidy-up that is harmless for the sparse layout)")
+    if tier == "thorough":
+        rep.add_mc("MC_Ladim(dense, compaction after every step)", tlc.model_check("MC_Ladim", "MC_Ladim_dense_everystep.cfg", must_take=["Call", "Restart", "Continue"], timeout=1800),
+                   note="addressing by identifier does not depend on when the list is compacted")
     scs = scenarios(tier, seed)
     traces = pmap("harness.e2e", "run_e2e", scs)
     rep.add_tv("e2e-records", "LadimTrace", scs, traces, tlc.validate_traces("LadimTrace", traces, batch_events=1500), family=FAMILY)
     rep.require_counts("e2e-records", {"records": 50})
     # records written after a warm start are snapshots too (time coordinate = model time, not a counter started at the restart)
-    from .c08 import family as restart_family_sc
+    # three quarters of them write the DENSE layout: the restored state holds the living particles only, the column is still the identifier
+    from .c08 import family as restart_family_sc, family_newest_dies
     rng = random.Random(seed + 3)
     fams = [restart_family_sc(rng) for _ in range(60 if tier == "thorough" else 16)]
+    fams += [family_newest_dies(rng) for _ in range(40 if tier == "thorough" else 12)]
+    for k, f in enumerate(fams):
+        f["dense_restart"] = k % 4 != 0
+        f["cls"]["dense_restart"] = f["dense_restart"]
     res = pmap("harness.checks.c08", "run_family", fams)
     rs, owners = [], []
     for f, r in zip(fams, res):
